@@ -21,7 +21,7 @@ Next == k < Len(Cases) /\ k' = k + 1
 
 ResolveT(s, T) == IF IsTypeSym(s) THEN T[(s - 100) \div 10][(s - 100) % 10] ELSE s
 
-Failures(c) ==
+Failures(c, checkTypeOrder) ==
   LET n == Len(c.vals)
       I == 1..n
       v(i) == c.vals[i]
@@ -40,7 +40,7 @@ Failures(c) ==
                                                       /\ c.le[q[1]][q[2]] # NumLe(v(q[1]).v, v(q[2]).v)}}
  \cup {<<"agree-ne", p[1], p[2]>>  : p \in {q \in P : bothNum(q[1], q[2]) /\ ~NumRelUnspecified(v(q[1]).v, v(q[2]).v)
                                                       /\ c.ne[q[1]][q[2]] # NumEqual(v(q[1]).v, v(q[2]).v)}}
- \cup law("type-order", TypeOrderOK(c.to))
+ \cup law("type-order", ~checkTypeOrder \/ TypeOrderOK(c.to))
  \cup law("eq-reflexive", EqReflexive(I, eq, LAMBDA i : ~HasNaN(v(i))))
  \cup law("eq-nan-irreflexive", EqIrreflexiveAtNaN(I, eq, LAMBDA i : ~HasNaN(v(i))))
  \cup law("eq-symmetric", EqSymmetric(I, I, eq))
@@ -54,5 +54,6 @@ Failures(c) ==
  \cup law("tot-agrees-with-cmp", TotAgreesWithCmp(I, I, cmp, tot))
  \cup law("tot-grouped", TotGrouped(I, I, tot, LAMBDA i : v(i).t))
 
-Inv == k = 0 \/ LET f == Failures(Cases[k]) IN f = {} \/ PrintT(<<"BAD", k, f>>)
+\* the type table is the same in every case of a session: judged once per file
+Inv == k = 0 \/ LET f == Failures(Cases[k], k = 1) IN f = {} \/ PrintT(<<"BAD", k, f>>)
 =============================================================================
